@@ -209,7 +209,7 @@ def gen_case(rng, tier, cid):
             steps.append(f"F:{src}:{rng.randint(0, max(lens[src] - 1, 0))}")
             nlines += 1
             lens.append(lens[src])
-        elif k < 0.96:
+        elif k < 0.985:
             steps.append(f"C:{rng.randrange(nlines)}")
         else:
             steps.append(f"T:-")
